@@ -705,7 +705,11 @@ func (e *Exec) loopExit(fr *frame, st *State, li *loopInfo, c *Contract) {
 		}
 		g, ok := e.evalSpec(st, c.PkgPath, cl.GenFn, args, fr.entryState)
 		if ok {
-			e.oblige(st, "loop.after", fmt.Sprintf("loop.after.%d.%s", li.ord, clauseName(cl, i)), g, fmt.Sprintf("exit of loop %d of %s", li.ord, fr.fn.Name()))
+			if cl.Assumed {
+				e.trusted(fmt.Sprintf("assumed fact at the exit of loop %d of %s: %s", li.ord, shortKey(c.Key), oneLine(cl.Expr)))
+			} else {
+				e.oblige(st, "loop.after", fmt.Sprintf("loop.after.%d.%s", li.ord, clauseName(cl, i)), g, fmt.Sprintf("exit of loop %d of %s", li.ord, fr.fn.Name()))
+			}
 			e.assume(st, g)
 		}
 	}
